@@ -13,6 +13,7 @@ import SecsModel.Model.WF
 import SecsModel.Model.Msg
 import SecsModel.Generated.Facts
 import SecsModel.Proofs.FillWF
+import SecsModel.Proofs.FillFF
 namespace Secs.C12
 open Secs
 
@@ -479,6 +480,13 @@ theorem factories_well_formed :
     (∀ args t, itemsWfS args = true → mkList args = some t → t.wfS = true) :=
   ⟨mkInt_wfS, mkUint_wfS, mkFloat_wfS, mkBinary_wfS, mkBoolean_wfS, mkAscii_wfS, mkAsciiVar_wfS,
     fun args t hi h => mkList_wfS args t h hi⟩
+
+/-- for templates without F4/F8 items the fill keeps the FULL invariant `wf` (values in range
+included) - any depth, nested ellipses included; with floats the value clause is the float
+library's (`floatStore`), see `fill_well_formed` -/
+theorem fill_well_formed_float_free (t t' : Tmpl) (env : Env) (hw : t.wf = true) (hf : t.floatFree = true)
+    (henv : Env.itemsWfS env = true) (henvf : Env.itemsFF env = true) (h : t.fill env = some t') : t'.wf = true :=
+  (t.fill_wf t' env hw hf henv henvf h).1
 
 /-- a fill hands out a well-formed item or refuses -/
 theorem fill_well_formed (t t' : Tmpl) (env : Env) (hw : t.wfS = true) (henv : Env.itemsWfS env = true)
